@@ -67,39 +67,75 @@ def colorEndOf (b : Bytes) (start stop lineEnd : Nat) : Nat :=
   let ce := min stop lineEnd
   if ce = lineEnd ∧ start < ce ∧ b[ce - 1]? = some (.lead '\r') then ce - 1 else ce
 
-/-- `build_pretty_string_item` -/
-def buildItem (b : Bytes) (start stop : Nat) (isRemoval coloring : Bool) (lineRange : Option (Nat × Nat)) :
-    R (List Char) := do
+/-- what `build_pretty_string_item` computes from the text and the region before it renders anything: the three
+    slices of the shown lines (before, inside, behind the highlighted span) and the paddings of the two marker lines -/
+structure ItemGeom where
+  pre : Bytes
+  mid : Bytes
+  post : Bytes
+  startTabs : Nat
+  startPad : Nat
+  endTabs : Nat
+  endPad : Nat
+  deriving Repr
+
+def lnoOf (lineRange : Option (Nat × Nat)) : Nat :=
+  match lineRange with
+  | some _ => lineColumnWidth
+  | none => 0
+
+/-- the arithmetic and slicing of `build_pretty_string_item`, in its order of evaluation; `none`: nothing to show -/
+def itemGeom (b : Bytes) (start stop : Nat) (lineRange : Option (Nat × Nat)) : R (Option ItemGeom) := do
   let len ← subU stop start
-  if len = 0 ∨ b.isEmpty then return []
+  if len = 0 ∨ b.isEmpty then return none
   let lineStart := lineStartOf b start
   let lineEndStart := lineStartOf b (stop - 1)
   let lineEnd := lineEndOf b (stop - 1)
   let colorEnd := colorEndOf b start stop lineEnd
-  let (mStartCol, mEndCol, startCol, resetCol) :=
-    if coloring then (colGreen, colGreen, if isRemoval then colRed else colYellow, colReset)
-    else ([], [], [], [])
   let _ ← subU lineEnd lineStart
   let pre ← slice b lineStart start
   let mid ← slice b start colorEnd
   let post ← slice b colorEnd lineEnd
-  let removed := charsOf pre
-    ++ joinWith ['\n'] ((rustLines (charsOf mid)).map fun l => startCol ++ l ++ resetCol)
-    ++ charsOf post ++ ['\n']
-  let (codeBlock, lno) := match lineRange with
-    | some (a, z) => (zipLines (List.range' a (z + 1 - a)) (rustLines removed), lineColumnWidth)
-    | none => (removed, 0)
+  let lno := lnoOf lineRange
   let startOfs ← subU start lineStart
   let startTabs := countTabs (← slice b lineStart start)
   let endOfs ← subU (← subU stop lineEndStart) 1
   let endTabs := countTabs (← slice b lineEndStart stop)
   let startPad ← subU (lno + startOfs) startTabs
   let endPad ← subU (endOfs + lno) endTabs
-  return (List.replicate startTabs tabspace).flatten ++ List.replicate startPad ' '
-    ++ mStartCol ++ strMarkerStart ++ resetCol ++ ['\n']
-    ++ replaceTabs codeBlock
-    ++ (List.replicate endTabs tabspace).flatten ++ List.replicate endPad ' '
-    ++ mEndCol ++ strMarkerEnd ++ resetCol
+  return some ⟨pre, mid, post, startTabs, startPad, endTabs, endPad⟩
+
+def colMarker (coloring : Bool) : List Char := if coloring then colGreen else []
+def colSpan (coloring isRemoval : Bool) : List Char :=
+  if coloring then (if isRemoval then colRed else colYellow) else []
+def colOff (coloring : Bool) : List Char := if coloring then colReset else []
+
+/-- the shown lines, the highlighted span wrapped line by line -/
+def removedText (coloring isRemoval : Bool) (g : ItemGeom) : List Char :=
+  charsOf g.pre
+    ++ joinWith ['\n'] ((rustLines (charsOf g.mid)).map fun l => colSpan coloring isRemoval ++ l ++ colOff coloring)
+    ++ charsOf g.post ++ ['\n']
+
+def codeBlockOf (lineRange : Option (Nat × Nat)) (removed : List Char) : List Char :=
+  match lineRange with
+  | some (a, z) => zipLines (List.range' a (z + 1 - a)) (rustLines removed)
+  | none => removed
+
+/-- the rendering proper -/
+def renderItem (coloring isRemoval : Bool) (lineRange : Option (Nat × Nat)) (g : ItemGeom) : List Char :=
+  (List.replicate g.startTabs tabspace).flatten ++ List.replicate g.startPad ' '
+    ++ colMarker coloring ++ strMarkerStart ++ colOff coloring ++ ['\n']
+    ++ replaceTabs (codeBlockOf lineRange (removedText coloring isRemoval g))
+    ++ (List.replicate g.endTabs tabspace).flatten ++ List.replicate g.endPad ' '
+    ++ colMarker coloring ++ strMarkerEnd ++ colOff coloring
+
+/-- `build_pretty_string_item` -/
+def buildItem (b : Bytes) (start stop : Nat) (isRemoval coloring : Bool) (lineRange : Option (Nat × Nat)) :
+    R (List Char) :=
+  match itemGeom b start stop lineRange with
+  | .error e => .error e
+  | .ok none => .ok []
+  | .ok (some g) => .ok (renderItem coloring isRemoval lineRange g)
 
 /-- `get_line_range` -/
 def getLineRange (lm : List Nat) (start stop : Nat) : R (Nat × Nat) := do
